@@ -133,6 +133,18 @@ def encoded_functions(build, specs):
     return out
 
 
+def _merge_xcheck(results):
+    out = {}
+    for r in results.values():
+        for solver, d in ((r or {}).get("xcheck") or {}).items():
+            o = out.setdefault(solver, {})
+            for verdict, n in d.items():
+                o[verdict] = o.get(verdict, 0) + n
+    out["rule"] = ("every n-th 'unsat' verdict (a discharged check) is re-decided by the named solver binaries on the SMT-LIB2 dump of the "
+                   "same query; 'sat' there makes the path inconclusive (exit 3); unknown / time-out / parse error = not confirmed")
+    return out
+
+
 def main(argv=None):
     global _BUILD
     ap = argparse.ArgumentParser()
@@ -199,6 +211,10 @@ def main(argv=None):
         st = None
     names = [o.name for o in obligations]
     _OBS.update({o.name: o for o in obligations})
+    if "VT_XCHECK" not in os.environ:
+        # second-solver cross-checks of sampled 'unsat' verdicts (forked workers inherit the setting)
+        from vt import symx as _symx
+        _symx.XCHECK_EVERY = 200 if args.tier == "quick" else 40
     results = run_pool(modname, args.tier, seed, names, args.jobs)
 
     known = load_known()
@@ -259,6 +275,7 @@ def main(argv=None):
             "obligation_detail": per_ob,
             "checks_discharged": tot["checks"], "solver_queries": tot["queries"],
             "solver_seconds": round(tot["solver_s"], 2), "paths_aborted": tot["aborted"],
+            "second_solver_cross_checks": _merge_xcheck(results),
             "functions_encoded": encoded_functions(_BUILD, spec),
             "c_functions_interpreted": sorted({f for r in results.values() if r for f in r.get("c_functions", [])}),
             "solver": "z3 %s (python wheel)" % __import__("z3").get_version_string(),
